@@ -532,6 +532,29 @@ func (g *jsonGen) mutate(root *jnode) string {
 	}
 }
 
+// forceBoth gives one fee entry both alternatives of the fee type (false when the document has no fee entry).
+func (g *jsonGen) forceBoth(root *jnode) bool {
+	var ms []member
+	collectMembers(root, inSet("recipient"), &ms)
+	var infos []*jnode
+	for _, m := range ms {
+		if m.obj.get("@type") < 0 {
+			infos = append(infos, m.obj)
+		}
+	}
+	if len(infos) == 0 {
+		return false
+	}
+	o := infos[g.r.Intn(len(infos))]
+	if o.get("amount") < 0 {
+		o.add("amount", jobj().add("value", jstr("7")))
+	}
+	if o.get("basis_points") < 0 && o.get("basisPoints") < 0 {
+		o.add("basis_points", jobj().add("value", jnum("3")))
+	}
+	return true
+}
+
 // ---------- the acceptance oracle, on the generic document ----------
 
 func knownNames(m any) map[string]bool {
